@@ -5357,11 +5357,16 @@ class Parameterized(metaclass=ParameterizedMetaclass):
                             # object's copy
                             function = getattr(fn, 'keywords', {}).get('function')
                             owner = None if function is None else get_method_owner(function)
-                            if owner is None or owner is self:
+                            if owner is None or (owner is watcher.inst and owner is not self):
                                 watcher_args[2] = _m_caller(self, fn._watcher_name)
                         elif get_method_owner(fn) is watcher.inst:
                             watcher_args[2] = getattr(self, fn.__name__)
-                        new_watchers.append(Watcher(*watcher_args))
+                        if all(a is b for a, b in zip(watcher_args, watcher)):
+                            # Already bound to this copy (deep copies): keep the very
+                            # object, which dynamic_watchers refers to as well
+                            new_watchers.append(watcher)
+                        else:
+                            new_watchers.append(Watcher(*watcher_args))
                     param_watchers[p][attr] = new_watchers
 
         state.pop('param', None)
